@@ -17,7 +17,9 @@
    yielded d sid p : some strategy of the table, applied to a class that has a
    label in d (the class that was being expanded), yields the rule object
    (sid, p) (itself, or as a factory);  sid = -1 is the rule of
-   forest.empty_strategy. *)
+   EmptyStrategy: RuleDBForest records it for empty children of possibly_empty
+   rules, and the searcher itself records it (under every database) for an
+   empty start class instead of expanding that class. *)
 From Coq Require Import ZArith List Bool Lia.
 From CSS Require Import Base.PyList ClassDB.Model ClassDB.Proofs Gen.Prelude Gen.ReverseShifts
   Searcher.Model Searcher.Inv Searcher.Proofs.
@@ -66,8 +68,9 @@ Qed.
    for it, `start` is the label of the rule's parent (not of the class that
    happened to be expanded) and `ends` are the labels of the table's children
    in order - all of them, or, for the calls made by _symmetry_expand, the
-   first one.  The only other rule ever added is the empty rule of
-   RuleDBForest, and only for a class that is empty. *)
+   first one.  The only other rule ever added is the empty rule (sid = -1,
+   no children: for an empty start class, or by RuleDBForest for an empty
+   child), always under the label of a class that is truly empty. *)
 Theorem C04_recorded_from_table : forall ps start_label ends sid parent,
   In (EvAdd start_label ends sid parent) (trace (final ps)) ->
   let d := cdb (final ps) in
@@ -203,6 +206,13 @@ Example C04_nonvacuous :
 Proof.
   vm_compute. csplit; try reflexivity; repeat (first [left; reflexivity | right]).
 Qed.
+
+(* an empty start class is given the empty rule, under every database, and is not expanded *)
+Example C04_nonvacuous_empty_start :
+  let s := run_search ex_table 0 20 false true [] 2 [] in
+  stat s = Running /\ classes (cdb s) = [2] /\
+  rev (trace s) = [EvQAdd 0; EvQStop 0; EvQStop 0; EvAdd 0 [] (-1) 2; EvVerified 0; EvStore false 0 [] (-1) 2].
+Proof. vm_compute. csplit; reflexivity. Qed.
 
 Example C04_nonvacuous_pe_contract : forall sid c e,
   entry_of ex_table sid c = Some e -> pe_of ex_table sid = false ->
